@@ -1185,6 +1185,32 @@ fn alias_block(ctx: &mut Ctx) -> Result<(), String> {
         };
         ctx.verdict("alias", pos, Ty::Str, 0, &dv, None, problem, json!({"family": "alias", "alias": "x"}));
     }
+    // a bound literal followed by a variable that is used twice: every use of the variable is its own value
+    let same = match w.write("mutate { S { p: $p n: $n d: $d } }", params(&[("p", sparam("same")), ("n", sparam("v")), ("d", sparam("same"))]), true, &mut ctx.vocab) {
+        Res::Ok(ok) => ok.id,
+        other => return Err(format!("fixture write failed: {}", other.msg())),
+    };
+    for (label, text) in [
+        ("literal-then-variable-twice", "query { S (n = \"v\", p = $q, d = $q) { id } }"),
+        ("variable-twice-then-literal", "query { S (p = $q, d = $q, n = \"v\") { id } }"),
+        ("default-field-then-variable-twice", "query { S (d = $q, p = $q) { id d } }"),
+    ] {
+        let dv = DV { v: Val::S("same".into()), class: "plain".into(), legal: true };
+        let r = w.read(text, params(&[("q", sparam("same"))]), false, &mut ctx.vocab);
+        let want: BTreeSet<String> = [same.clone()].into_iter().collect();
+        let problem: Option<(&str, String)> = match &r {
+            Res::Ok(ok) => {
+                let got = ids_of(&ok.json, "S").unwrap_or_default();
+                if got != want {
+                    Some(("wrong-match-set", format!("`{}` with $q = \"same\" returns {} rows, {} of them expected: a reused variable does not keep its value", text, got.len(), got.intersection(&want).count())))
+                } else {
+                    None
+                }
+            }
+            other => Some(failure(&w, other, "query fails")),
+        };
+        ctx.verdict("alias", label, Ty::Str, 0, &dv, None, problem, json!({"family": "alias", "alias": "x"}));
+    }
     ctx.out.transitions += if ctx.report { w.calls } else { 0 };
     Ok(())
 }
